@@ -167,6 +167,14 @@ def history_from(st0, seed, nsteps, profile):
             if project.apply_edit(st2, op) and project.render(st2) != before:
                 st = st2
                 ops.append(op)
+                if op["op"] == "toggle_semblock" and st["mods"].get(op["mod"], {}).get("semblock"):
+                    # the blocker is removed again by the very next edit (and nothing else changes): the step after a
+                    # blocker is where a daemon that kept half-processed state would answer wrongly
+                    op2 = {"op": "toggle_semblock", "mod": op["mod"], "seed": op["seed"] + 1}
+                    st3 = copy.deepcopy(st)
+                    if project.apply_edit(st3, op2):
+                        st = st3
+                        ops.append(op2)
         return ops
     finally:
         project.EDIT_KINDS, project.IMPORT_STYLES, project.EXPORT_KINDS = saved
